@@ -183,12 +183,17 @@ def coq_makefile():
 
 def coq_build(targets, timeout=3000, keep_going=False):
     """Build the given .vo targets (paths relative to coq/, e.g. theories/Props/C20.vo)."""
+    # The lock only protects the regeneration of _CoqProject / Makefile / dependency file; the compilation
+    # itself runs unlocked so that one slow proof does not stall every other check (concurrent makes only
+    # collide if they have to rebuild the same file at the same moment, which make reports as an error
+    # and the next run repairs).
     with Lock("coq"):
         ok, out = coq_makefile()
         if not ok:
             return False, out
-        rc, out = sh(["make", "-j%d" % NPROC] + (["-k"] if keep_going else []) + list(targets), cwd=COQ, timeout=timeout)
-        return rc == 0, out
+        sh(["make", ".Makefile.d"], cwd=COQ, timeout=300)
+    rc, out = sh(["make", "-j%d" % NPROC] + (["-k"] if keep_going else []) + list(targets), cwd=COQ, timeout=timeout)
+    return rc == 0, out
 
 
 def scan_forbidden(paths):
@@ -560,10 +565,21 @@ def proof_stage(chk, props_module_file, extra_targets=()):
     """Steps 1-3 of the protocol for one property: regenerate, build cone, audit.
     Returns (ok, info). On failure the names of what broke are appended to chk.broken."""
     ok, out = regenerate()
-    if not ok:
-        chk.broken.append("translator: " + out.strip()[-2000:])
-        chk.log("translator failed:\n" + out[-3000:])
     rel = os.path.relpath(props_module_file, COQ)
+    if not ok:
+        # a broken translator item only concerns the properties whose proof cone contains the generated
+        # file the item belongs to (gen/manifest.json: errors_by_file)
+        chk.log("translator reported broken ties:\n" + out[-1500:])
+        try:
+            man = json.load(open(os.path.join(COQ, "gen", "manifest.json")))
+            by_file = man.get("errors_by_file") or {"*": man.get("errors", [])}
+        except (OSError, ValueError):
+            by_file = {"*": [out.strip()[-1500:]]}
+        cone = set(os.path.relpath(f, COQ) for f in cone_files(rel))
+        for fname, errs in by_file.items():
+            if fname == "*" or ("gen/%s.v" % fname) in cone:
+                for e in errs:
+                    chk.broken.append("translator: %s: %s" % (fname, e))
     target = rel[:-2] + ".vo"
     t0 = time.time()
     okb, out = coq_build([target] + list(extra_targets))
